@@ -31,8 +31,14 @@ pub fn corpus(thorough: bool) -> Vec<Program> {
     // annotations with several examples / tags, several modules, parameters, declarations,
     // references, ranges
     take(8, if thorough { 1 } else { 12 }, &mut out);
+    // the last programs of F9 differ from each other only inside annotations
+    {
+        let f9 = frags::fragment(8, false).programs;
+        let n = f9.len();
+        out.extend(f9.into_iter().skip(n.saturating_sub(10)));
+    }
     take(7, if thorough { 1 } else { 4 }, &mut out);
-    take(6, if thorough { 1 } else { 6 }, &mut out);
+    take(6, if thorough { 1 } else { 3 }, &mut out);
     take(5, if thorough { 3 } else { 60 }, &mut out);
     take(4, if thorough { 2 } else { 16 }, &mut out);
     take(2, if thorough { 5 } else { 60 }, &mut out);
@@ -202,7 +208,19 @@ fn judge_history(history: &[&Vec<(String, String)>], sink: Option<&mut Sink>) ->
     // The last program is the subject; the others are compiled before it in the same
     // process and thread.
     let (last, before) = history.split_last().unwrap();
-    let alone = run_under(&pipeline::files_of(last), vec![]).0;
+    // Stand-alone: on a fresh thread, so that neither thread-local nor per-thread state
+    // of this worker's earlier compilations can reach it.
+    let alone = {
+        let files = pipeline::files_of(last);
+        std::thread::scope(|s| {
+            std::thread::Builder::new()
+                .stack_size(8 << 20)
+                .spawn_scoped(s, || run_under(&files, vec![]).0)
+                .expect("spawn")
+                .join()
+                .unwrap_or_else(|_| "<panic in the stand-alone compilation>".into())
+        })
+    };
     for t in before {
         let _ = run_under(&pipeline::files_of(t), vec![]);
     }
